@@ -188,7 +188,7 @@ class C19Check(Check):
         ops = []
         if g.chance(0.85):
             ops.append({"op": "precompute"})
-        for _ in range(g.pick([3, 5, 8, 12, 18])):
+        for _ in range(g.pick([3, 5, 8, 12, 18] + ([25, 25] if self.tier == "thorough" else []))):
             r = g.random()
             k = g.randint(1, max(1, n - 1))
             idx = [g.randrange(n) for _ in range(k)] if g.chance(0.25) else g.sample(range(n), k)
